@@ -106,9 +106,9 @@ Proof. intros L. unfold send_pre, trigger. rewrite L. cbn. rewrite andb_false_r.
 
 Ltac prj := cbn [wire kex_complete kexinit_sent deferred future send_seq rekey_sent rekey_time now
                  set_deferred set_kexinit_sent set_kex_complete set_rekey_sent set_rekey_time set_now set_future
-                 w_pkt w_epoch w_keys map].
+                 set_cmp_seen cmp_seen w_pkt w_epoch w_keys w_cmp map].
 
-Lemma stamped_mk e p q l : stamped e (mkW p q (e_epoch e) (e_keys e) l).
+Lemma stamped_mk e p q l x : stamped e (mkW p q (e_epoch e) (e_keys e) l x).
 Proof. split; reflexivity. Qed.
 
 Lemma send_packet_spec c e p n : exists Y, sp_spec c e p n (send_packet c e p n) Y.
@@ -132,10 +132,7 @@ Proof.
            left. split; [congruence|]. split; [congruence|]. right.
            split; [right; auto|]. split; [congruence|exact Hd].
         -- destruct F2 as (K & Ha & (w & W1 & W2 & W3) & K2 & K3 & K4 & K5).
-           exists [w; mkW IGN_pkt (send_seq n2) (e_epoch e) (e_keys e)
-                       (1 + p_len IGN_pkt + pad_len (e_hdr e) (e_bs e) (p_len IGN_pkt));
-                   mkW p ((if (p_ty IGN_pkt =? MSG_NEWKEYS) && e_strict e then 0 else (send_seq n2 + 1) mod SEQ_MOD))
-                       (e_epoch e) (e_keys e) (1 + p_len p + pad_len (e_hdr e) (e_bs e) (p_len p))].
+           eexists (w :: [_; _]).
            assert (NS : legacy c = true /\ future n <> []).
            { split.
              - (* the fixed code never fires for the IGNORE *)
@@ -473,7 +470,7 @@ Global Hint Rewrite env_set_sn env_set_asked env_set_err env_set_started env_set
 
 Ltac stcbn := cbn [do_send do_flush set_asked set_sn set_err set_started set_kex_active set_auth set_markers
                    set_sid install_send install_recv started kex_active auth_in_progress auth_complete can_ext
-                   strict sid send_keys send_hdr send_bs send_epoch staged recv_keys recv_epoch hist asked err sn];
+                   strict sid send_keys send_hdr send_bs send_epoch send_cmp staged recv_keys recv_epoch hist asked err sn];
               autorewrite with envdb.
 
 (* ---- whole-connection invariant ---------------------------------------------------------------- *)
@@ -690,42 +687,55 @@ Section Inv2.
     - apply Inv_flush; auto. rewrite T1, T2. exact S4.
   Qed.
 
+  (* the common beginning of the send_newkeys proofs: NEWKEYS goes out under the old keys, the send state [n1]
+     right after it has a new (empty) compression context *)
+  Ltac nk_open Hk :=
+    cbv zeta;
+    rewrite (do_send_plain _ NEWKEYS_pkt) by (first [exact Hk | reflexivity]);
+    stcbn.
+
   Lemma Inv_send_newkeys s k h a : Inv s -> Inv (send_newkeys Hf c k h a s).
   Proof.
     unfold send_newkeys. intros I. destruct (kex_active s) eqn:Ka; [|exact I]. cbn [negb].
     destruct I as [S O J H R]. rewrite Ka in S.
     pose proof (si_mode _ _ _ _ S) as M. apply mode_kaT in M as (St & Hk & Hs).
     destruct S as [_ A E D]. rewrite St, Hk in A.
-    cbv zeta.
-    rewrite (do_send_plain _ NEWKEYS_pkt) by (first [exact Hk | reflexivity]).
-    rewrite (do_send_plain _ (EXTINFO_pkt c)) by (first [exact Hk | reflexivity]).
+    nk_open Hk.
+    match goal with |- context [set_cmp_seen [] ?x] => set (n1 := set_cmp_seen [] x) end.
+    assert (A1 : alt_scan (types n1) = Some false).
+    { unfold n1. change (types (set_cmp_seen [] ?x)) with (types x).
+      rewrite types_emit. unfold alt_scan in *. rewrite fold_left_snoc, A. reflexivity. }
+    assert (E1 : epoch_scan (wire n1) = Some (send_epoch s + 1)).
+    { unfold n1; prj. rewrite (epoch_emit _ _ _ _ E eq_refl). reflexivity. }
+    assert (K1 : filter sess (pkts n1) = filter sess (pkts (sn s))).
+    { unfold n1. change (pkts (set_cmp_seen [] ?x)) with (pkts x).
+      rewrite pkts_emit, filter_app. cbn. rewrite app_nil_r. reflexivity. }
+    assert (F1 : kex_complete n1 = false /\ kexinit_sent n1 = false /\ deferred n1 = deferred (sn s)) by auto.
+    destruct F1 as (Hk1 & Hs1 & D1).
+    clearbody n1.
+    rewrite (do_send_plain _ (EXTINFO_pkt c)) by (first [exact Hk1 | reflexivity]).
     set (sid' := if is_nil (sid s) then h else sid s).
     set (KS := mk_keys Hf (is_client c) k h sid' a). set (NX := mk_keys Hf (negb (is_client c)) k h sid' a).
     set (HD := if is_client c then a_hdr_cs a else a_hdr_sc a). set (BS := if is_client c then a_bs_cs a else a_bs_sc a).
+    set (CM := if is_client c then a_cmp_cs a else a_cmp_sc a).
     stcbn.
-    assert (A1 : alt_scan (types (emit (env_of s) NEWKEYS_pkt (sn s))) = Some false).
-    { rewrite types_emit. unfold alt_scan in *. rewrite fold_left_snoc, A. reflexivity. }
-    assert (E1 : epoch_scan (wire (emit (env_of s) NEWKEYS_pkt (sn s))) = Some (send_epoch s + 1)).
-    { rewrite (epoch_emit _ _ _ _ E eq_refl). reflexivity. }
-    assert (K1 : filter sess (pkts (emit (env_of s) NEWKEYS_pkt (sn s))) = filter sess (pkts (sn s))).
-    { rewrite pkts_emit, filter_app. cbn. rewrite app_nil_r. reflexivity. }
     destruct R as [R1 R2].
     destruct (can_ext s); apply newkeys_tail; unfold ord in *; stcbn; auto;
       try (rewrite app_length; cbn [length]; lia); try (split; [lia|intros _; lia]).
     - constructor; prj.
-      + rewrite !ks_emit, Hs. reflexivity.
+      + rewrite !ks_emit, Hs1. reflexivity.
       + change (types (set_kex_complete true ?n)) with (types n). rewrite types_emit.
         unfold alt_scan in *. rewrite fold_left_snoc, A1. reflexivity.
       + rewrite (epoch_emit _ _ _ _ E1); reflexivity.
-      + exact D.
+      + rewrite deferred_emit, D1. exact D.
     - change (pkts (set_kex_complete true ?n)) with (pkts n). prj.
-      rewrite pkts_emit, filter_app, K1. cbn. rewrite app_nil_r. exact O.
+      rewrite pkts_emit, filter_app, K1, deferred_emit, D1. cbn. rewrite app_nil_r. exact O.
     - constructor; prj.
-      + rewrite !ks_emit, Hs. reflexivity.
+      + rewrite Hs1. reflexivity.
       + change (types (set_kex_complete true ?n)) with (types n). rewrite A1. reflexivity.
       + exact E1.
-      + exact D.
-    - change (pkts (set_kex_complete true ?n)) with (pkts n). prj. rewrite K1. exact O.
+      + rewrite D1. exact D.
+    - change (pkts (set_kex_complete true ?n)) with (pkts n). prj. rewrite K1, D1. exact O.
   Qed.
 End Inv2.
 
@@ -917,33 +927,35 @@ Section Quiet.
     pose proof (si_mode _ _ _ _ S) as M. apply mode_kaT in M as (St & Hk & Hs).
     unfold QInv in QI. rewrite St, Hk in QI.
     destruct S as [_ A E D]. rewrite St, Hk in A.
-    cbv zeta in *.
-    rewrite (do_send_plain c _ NEWKEYS_pkt) in * by (first [exact Hk | reflexivity]).
-    rewrite (do_send_plain c _ (EXTINFO_pkt c)) in * by (first [exact Hk | reflexivity]).
-    set (sid' := if is_nil (sid s) then h else sid s) in *.
-    set (KS := mk_keys Hf (is_client c) k h sid' a) in *. set (NX := mk_keys Hf (negb (is_client c)) k h sid' a) in *.
-    set (HD := if is_client c then a_hdr_cs a else a_hdr_sc a) in *.
-    set (BS := if is_client c then a_bs_cs a else a_bs_sc a) in *.
-    assert (A1 : alt_scan (types (emit (env_of s) NEWKEYS_pkt (sn s))) = Some false).
-    { rewrite types_emit. unfold alt_scan in *. rewrite fold_left_snoc, A. reflexivity. }
-    assert (E1 : epoch_scan (wire (emit (env_of s) NEWKEYS_pkt (sn s))) = Some (send_epoch s + 1)).
-    { rewrite (epoch_emit _ _ _ _ E eq_refl). reflexivity. }
-    assert (Q1 : quiet_scan (types (emit (env_of s) NEWKEYS_pkt (sn s))) = Some false).
-    { rewrite (quiet_emit _ _ _ _ QI). reflexivity. }
+    cbv zeta.
+    rewrite (do_send_plain c _ NEWKEYS_pkt) by (first [exact Hk | reflexivity]).
+    stcbn.
+    match goal with |- context [set_cmp_seen [] ?x] => set (n1 := set_cmp_seen [] x) end.
+    assert (A1 : alt_scan (types n1) = Some false).
+    { unfold n1. change (types (set_cmp_seen [] ?x)) with (types x).
+      rewrite types_emit. unfold alt_scan in *. rewrite fold_left_snoc, A. reflexivity. }
+    assert (E1 : epoch_scan (wire n1) = Some (send_epoch s + 1)).
+    { unfold n1; prj. rewrite (epoch_emit _ _ _ _ E eq_refl). reflexivity. }
+    assert (Q1 : quiet_scan (types n1) = Some false).
+    { unfold n1. change (types (set_cmp_seen [] ?x)) with (types x). rewrite (quiet_emit _ _ _ _ QI). reflexivity. }
+    assert (F1 : kex_complete n1 = false /\ kexinit_sent n1 = false /\ deferred n1 = deferred (sn s)) by auto.
+    destruct F1 as (Hk1 & Hs1 & D1).
+    clearbody n1.
+    rewrite (do_send_plain c _ (EXTINFO_pkt c)) by (first [exact Hk1 | reflexivity]).
     stcbn.
     destruct (can_ext s); apply Q_tail; stcbn; auto.
     - split; [constructor; prj|prj].
-      + rewrite !ks_emit, Hs. reflexivity.
+      + rewrite !ks_emit, Hs1. reflexivity.
       + change (types (set_kex_complete true ?n)) with (types n). rewrite types_emit.
         unfold alt_scan in *. rewrite fold_left_snoc, A1. reflexivity.
       + rewrite (epoch_emit _ _ _ _ E1); reflexivity.
-      + exact D.
+      + rewrite deferred_emit, D1. exact D.
       + change (types (set_kex_complete true ?n)) with (types n). rewrite (quiet_emit _ _ _ _ Q1). reflexivity.
     - split; [constructor; prj|prj].
-      + rewrite !ks_emit, Hs. reflexivity.
+      + rewrite Hs1. reflexivity.
       + change (types (set_kex_complete true ?n)) with (types n). rewrite A1. reflexivity.
       + exact E1.
-      + exact D.
+      + rewrite D1. exact D.
       + change (types (set_kex_complete true ?n)) with (types n). rewrite Q1. reflexivity.
   Qed.
 
@@ -1200,6 +1212,155 @@ Section Keys2.
   Qed.
 End Keys2.
 
+(* ---- compression contexts: a new one per key epoch ------------------------------------------------- *)
+Lemma cmp_fed_app ep l m : cmp_fed ep (l ++ m) = cmp_fed ep l ++ cmp_fed ep m.
+Proof. unfold cmp_fed. rewrite filter_app, map_app. reflexivity. Qed.
+
+Lemma cmp_ok_app l : forall pre m, cmp_ok pre (l ++ m) <-> cmp_ok pre l /\ cmp_ok (pre ++ l) m.
+Proof.
+  induction l as [|w l IH]; intros pre m; cbn [app cmp_ok].
+  - rewrite app_nil_r. tauto.
+  - rewrite IH. rewrite <- app_assoc. cbn [app]. tauto.
+Qed.
+
+Definition CI (ep : Z) (n : sndst) : Prop :=
+  cmp_ok [] (wire n) /\ cmp_seen n = cmp_fed ep (wire n) /\ Forall (fun w => w_epoch w <= ep) (wire n).
+
+Lemma CI_same ep n n' : wire n' = wire n -> cmp_seen n' = cmp_seen n -> CI ep n -> CI ep n'.
+Proof. intros W C (A & B & D). unfold CI. rewrite W, C. auto. Qed.
+
+Lemma CI_emit e p n : CI (e_epoch e) n -> CI (e_epoch e) (emit e p n).
+Proof.
+  intros (A & B & D). unfold CI, emit; prj. split; [|split].
+  - apply cmp_ok_app. split; [exact A|]. cbn [app cmp_ok w_cmp w_epoch]. split; [|exact I].
+    intros ctx Hc. destruct (compressing e); [|discriminate]. inversion Hc; subst. exact B.
+  - rewrite cmp_fed_app. unfold cmp_fed at 2. cbn [filter w_epoch w_cmp]. rewrite Z.eqb_refl.
+    destruct (compressing e); cbn [andb is_some map w_pkt]; [rewrite B; reflexivity|rewrite app_nil_r; exact B].
+  - apply Forall_app. split; [exact D|]. constructor; [cbn; lia|constructor].
+Qed.
+
+Lemma read_clock_ci n t n1 : read_clock n = (t, n1) -> wire n1 = wire n /\ cmp_seen n1 = cmp_seen n.
+Proof. unfold read_clock. destruct (future n); intros H; inversion H; subst; auto. Qed.
+
+Lemma CI_send_kexinit c e n : CI (e_epoch e) n -> CI (e_epoch e) (send_kexinit c e n).
+Proof.
+  intros H. unfold send_kexinit. apply CI_emit. destruct (rekey_seconds c =? 0).
+  - eapply CI_same; [| |exact H]; reflexivity.
+  - destruct (read_clock (set_rekey_sent 0 (set_kex_complete false n))) as [t n2] eqn:Hr.
+    apply read_clock_ci in Hr as [W C]. eapply CI_same; [| |exact H]; prj; auto.
+Qed.
+
+Lemma CI_send_pre c e ty n : CI (e_epoch e) n -> CI (e_epoch e) (send_pre c e ty n).
+Proof.
+  intros H. unfold send_pre, trigger.
+  assert (F : forall m, wire m = wire n -> cmp_seen m = cmp_seen n ->
+              CI (e_epoch e) (set_kexinit_sent true (send_kexinit c e m))).
+  { intros m W C. eapply CI_same; [| |apply (CI_send_kexinit c e m); eapply CI_same; eauto]; reflexivity. }
+  destruct (e_auth_complete e && kex_complete n && (legacy c || negb (ty =? MSG_IGNORE))); [|exact H].
+  destruct (rekey_bytes c <=? rekey_sent n); [apply F; reflexivity|].
+  destruct (rekey_seconds c =? 0); [exact H|].
+  destruct (read_clock n) as [t n1] eqn:Hr. apply read_clock_ci in Hr as [W C].
+  destruct (rekey_time n1 <=? t); [apply F; auto|eapply CI_same; eauto].
+Qed.
+
+Lemma CI_send_packet c e p n : CI (e_epoch e) n -> CI (e_epoch e) (send_packet c e p n).
+Proof.
+  intros H. unfold send_packet. pose proof (CI_send_pre c e (p_ty p) n H) as H1.
+  destruct (defer_cond e (kex_complete (send_pre c e (p_ty p) n)) (p_ty p)).
+  - eapply CI_same; [| |exact H1]; reflexivity.
+  - apply CI_emit. destruct (encrypting e && (MSG_KEX_LAST <? p_ty p)); [|exact H1].
+    unfold send_ignore. apply CI_emit. apply CI_send_pre. exact H1.
+Qed.
+
+Lemma CI_flush c e n : CI (e_epoch e) n -> CI (e_epoch e) (flush c e n).
+Proof.
+  intros H. unfold flush. apply fold_send_inv; [intros; apply CI_send_packet; auto|].
+  eapply CI_same; [| |exact H]; reflexivity.
+Qed.
+
+(* send_newkeys: the epoch advances and the compressor is replaced by one that has seen nothing *)
+Lemma CI_bump ep n : CI ep n -> CI (ep + 1) (set_cmp_seen [] n).
+Proof.
+  intros (A & B & D). unfold CI; prj. split; [exact A|]. split.
+  - clear A B. unfold cmp_fed. induction D as [|w l Hw _ IH]; [reflexivity|]. cbn [filter].
+    replace (w_epoch w =? ep + 1) with false by (symmetry; apply Z.eqb_neq; lia). cbn [andb]. exact IH.
+  - eapply Forall_impl; [|exact D]. cbn. intros; lia.
+Qed.
+
+Section Cmp.
+  Variable Hf : bytes -> bytes.
+  Variable c : cfg.
+
+  Definition CInv (s : st) : Prop := CI (send_epoch s) (sn s).
+
+  Lemma CInv_eq s s' : send_epoch s' = send_epoch s -> wire (sn s') = wire (sn s) ->
+    cmp_seen (sn s') = cmp_seen (sn s) -> CInv s -> CInv s'.
+  Proof. unfold CInv. intros E W C H. rewrite E. eapply CI_same; eauto. Qed.
+
+  Lemma CInv_do_send s p : CInv s -> CInv (do_send c p s).
+  Proof. intros H. apply (CI_send_packet c (env_of s) p (sn s)). exact H. Qed.
+
+  Lemma CInv_do_flush s : CInv s -> CInv (do_flush c s).
+  Proof. intros H. apply (CI_flush c (env_of s) (sn s)). exact H. Qed.
+
+  (* reduce the projections of explicit state constructors; CInv only looks at send_epoch and sn *)
+  Ltac cred := unfold CInv in *;
+    cbn [do_send do_flush set_asked set_sn set_err set_started set_kex_active set_auth set_markers
+         set_sid install_send install_recv send_epoch sn] in *.
+  Ltac snd_same H := eapply CI_same; [| |exact H]; reflexivity.
+
+  Lemma CInv_run_act a s : CInv s -> CInv (run_act Hf c a s).
+  Proof.
+    intros H. destruct a; cbn [run_act].
+    - cred. snd_same H.
+    - unfold recv_version. destruct (started s); [exact H|]. cred.
+      pose proof (CI_send_kexinit c (env_of s) (sn s) H) as K. snd_same K.
+    - cred. apply (CI_send_packet c (env_of s) p (sn s) H).
+    - unfold process_kexinit. destruct (negb (started s)); [exact H|].
+      destruct (kex_active s || is_some (staged s)); [cred; exact H|].
+      destruct (is_nil (sid s)); cred.
+      + destruct (kexinit_sent (sn s)); [snd_same H|].
+        exact (CI_send_kexinit c (env_of (set_markers (can_ext s || ext) (strict s || strictp) s)) (sn s) H).
+      + destruct (kexinit_sent (sn s)); [snd_same H|]. exact (CI_send_kexinit c (env_of s) (sn s) H).
+    - unfold send_newkeys. destruct (negb (kex_active s)); [exact H|]. cbv zeta.
+      set (sid' := if is_nil (sid s) then h else sid s).
+      set (s0 := set_sid sid' (set_kex_active false s)).
+      assert (H1 : CI (send_epoch s) (send_packet c (env_of s0) NEWKEYS_pkt (sn s)))
+        by (apply (CI_send_packet c (env_of s0) NEWKEYS_pkt (sn s)); exact H).
+      apply CI_bump in H1.
+      set (s2 := install_send _ _ _ _ _ _ _).
+      assert (K2 : CInv s2) by (unfold CInv, s2; cbn [send_epoch install_send sn set_sn do_send]; exact H1).
+      clearbody s2. clear H1.
+      set (s3 := if can_ext s2 then _ else s2).
+      assert (K3 : CInv s3).
+      { unfold s3. destruct (can_ext s2); [|exact K2]. cred.
+        apply (CI_send_packet c (env_of s2) (EXTINFO_pkt c) (sn s2) K2). }
+      clearbody s3.
+      set (s4 := set_sn (set_kex_complete true (sn s3)) s3).
+      assert (K4 : CInv s4) by (unfold s4; cred; snd_same K3).
+      clearbody s4.
+      apply CInv_do_flush. destruct (is_nil (sid s) && is_client c); [apply CInv_do_send|]; exact K4.
+    - unfold process_newkeys. destruct (staged s); cred; exact H.
+    - unfold auth_begin. destruct (is_client c); cred; [exact H|].
+      apply (CI_flush c (env_of (set_auth true (auth_complete s) s)) (sn s) H).
+    - unfold auth_done. cred. apply (CI_flush c (env_of (set_auth false true s)) (sn s) H).
+  Qed.
+
+  Lemma CInv_step s o : CInv s -> CInv (step Hf c s o).
+  Proof.
+    intros H. unfold step. destruct (err s); [exact H|].
+    assert (H0 : CInv (set_sn (set_future (snd o) (sn s)) s)) by (cred; snd_same H).
+    pose proof (CInv_run_act (fst o) _ H0) as H1.
+    unfold CInv in *. cbn [send_epoch sn set_sn]. snd_same H1.
+  Qed.
+
+  Lemma CInv_run ops : forall s, CInv s -> CInv (run Hf c ops s).
+  Proof. induction ops as [|o ops IH]; intros s H; [exact H|]. apply (IH (step Hf c s o)). apply CInv_step. exact H. Qed.
+
+  Lemma CInv_init : CInv init.
+  Proof. unfold CInv, CI. cbn. repeat split; constructor. Qed.
+End Cmp.
+
 (* ---- the statements used by Props/C11.v ----------------------------------------------------------- *)
 Section Final.
   Variable Hf : bytes -> bytes.
@@ -1313,6 +1474,13 @@ Section Final.
     (staged (reach ops) <> None -> recv_epoch (reach ops) < send_epoch (reach ops)).
   Proof. intros X. exact (inv_recv _ (Inv_reach Hf c ops X)). Qed.
 
+  Lemma compress_always ops :
+    cmp_ok [] (wire (sn (reach ops))) /\
+    cmp_seen (sn (reach ops)) = cmp_fed (send_epoch (reach ops)) (wire (sn (reach ops))).
+  Proof.
+    destruct (CInv_run Hf c ops init CInv_init) as (A & B & _). split; [exact A|exact B].
+  Qed.
+
   Lemma flushed_when_complete ops : forallb ext_ok ops = true ->
     kex_complete (sn (reach ops)) = true -> auth_complete (reach ops) = true ->
     filter sess (deferred (sn (reach ops))) = [].
@@ -1324,7 +1492,7 @@ End Final.
 (* the clock race: the trigger is evaluated once for the packet and once more for the IGNORE in front
    of it; if the rekey time falls between the two readings the data packet follows the KEXINIT *)
 Definition race_cfg : cfg := mkC true 1000000 50 100 30 true.     (* legacy = true: the code before 97cb05d *)
-Definition race_algs : algs := mkA 5 16 5 16 0 0 0 0 0 0.
+Definition race_algs : algs := mkA 5 16 5 16 0 0 0 0 0 0 0 0.
 Definition race_ops : list op :=
   [(RecvVersion, []); (RecvKexInit true true, []); (KexDone [1] [2] race_algs, []); (RecvNewKeys, []);
    (AuthBegin, []); (AuthDone, []); (Send (mkP 94 10 0), [10; 60])].
